@@ -16,8 +16,9 @@ TRUSTED = [
     "(vec![..; n] is modelled as always succeeding: allocation failure is C10's subject)",
     "the GC-heap term of ensure_heap_capacity is a free parameter of every theorem; the tie keeps requests out of the "
     "interval where it matters (sizes <= 8 slots or > max_heap_bytes/8)",
-    "f32 <-> f64 conversion of write_f32/read_f32 is not modelled (those four accessors are exercised by the direct oracle only); "
-    "f64 accessors are modelled on bit patterns",
+    "floats are bit patterns: f64 accessors move the pattern, f32 accessors go through hand-written f64->f32 (round to nearest even) "
+    "and f32->f64 conversions on bit patterns (Model/Bytes.v), tied by the histories and spot-checked against the host FPU; "
+    "the int-operand path of write_f32/write_f64 (i as f64) is not modelled",
 ]
 
 IMPORTS = "From Aelys Require Import Extracted.ManualMem Model.ManualHeap Model.ManualHeapObs Model.Bytes Model.BytesObs."
@@ -30,7 +31,7 @@ def coq_obs(o):
 def run_harness(ctx, binpath, surface, seed, hist, maxlen, extra=None):
     cmd = [binpath, "--seed", str(seed), "--hist", str(hist), "--maxlen", str(maxlen), "--surface", surface] + (extra or [])
     rc, out = vlib.sh(cmd, timeout=1500)
-    cases, oracle, dist, harness = [], [], {}, []
+    cases, oracle, dist, harness, texts = [], [], {}, [], []
     for line in out.splitlines():
         if line.startswith("!ORACLE\t"):
             f = line.split("\t")
@@ -41,8 +42,10 @@ def run_harness(ctx, binpath, surface, seed, hist, maxlen, extra=None):
             f = line.split("\t")
             dist[f[1]] = dist.get(f[1], 0) + int(f[2])
         elif "\t" in line and line[0] == "Q":
-            q, o = line.split("\t")
-            cases.append((q, coq_obs(o)))
+            f = line.split("\t")
+            cases.append((f[0], coq_obs(f[1])))
+            texts.append(f[2] if len(f) > 2 else "")
+    run_harness.texts = texts
     return rc, out, cases, oracle, dist, harness
 
 
@@ -76,13 +79,29 @@ def run(ctx):
         return
     quick = ctx.tier == "quick"
     plan = {"api": 400, "builtin": 250, "opcode": 350, "bytes": 500} if quick else \
-           {"api": 6000, "builtin": 4000, "opcode": 6000, "bytes": 8000}
-    maxlen = 200 if quick else 1500
+           {"api": 2000, "builtin": 800, "opcode": 1200, "bytes": 2000}
+    maxlen = 200 if quick else 500
     profiles = ["dev"] if quick else ["dev", "release"]
     total, nontrivial, steps = 0, set(), 0
     dist_all = {}
     ctx.cov["direct_oracle_failures"] = 0
     ctx.cov["known_class_hits"] = 0
+    rp = getattr(ctx, "replay_file", None)
+    replay = None
+    if rp:
+        # ./check C09 --replay FILE : re-run exactly the recorded history on its surface
+        j = json.load(open(rp))
+        r = j.get("replay", {})
+        hist = r.get("history", "")
+        hist = hist.split(" of: ", 1)[1] if " of: " in hist else hist
+        if not hist and r.get("ops"):
+            hist = r["ops"]
+        if not hist or "surface" not in r:
+            ctx.broken.append("replay file has no recorded history (model/implementation divergences are replayed by seed)")
+            return
+        replay = (r["surface"], hist)
+        plan = {r["surface"]: 1}
+        profiles = [r.get("profile", "dev")]
     for prof in profiles:
         okb, paths, log = vlib.harness_build(["hx_mheap"], profile=prof)
         if not okb:
@@ -91,6 +110,8 @@ def run(ctx):
             return
         for surface, n in plan.items():
             runs = [("corpus:" + name, ["--replay-ops", ops]) for name, ops in corpus_cases(surface)] + [(None, [])]
+            if replay:
+                runs = [("replay", ["--replay-ops", replay[1]])]
             for tag, extra in runs:
                 rc, out, cases, oracle, dist, harness = run_harness(
                     ctx, paths["hx_mheap"], surface, ctx.seed, n if tag is None else 1, maxlen, extra)
@@ -129,11 +150,15 @@ def run(ctx):
                 if fails:
                     ctx.broken.append(f"correspondence C09 ({surface}, {prof}): model and implementation differ on {len(fails)} histories")
                     bad = [cases[i] for i in fails[:3]]
+                    bad_texts = [run_harness.texts[i] if i < len(run_harness.texts) else "" for i in fails[:3]]
                     mo, _ = vlib.coq_eval_terms("c09", IMPORTS + "\nLocal Open Scope N_scope.", [f"{fn} ({q})" for q, _ in bad])
                     dis = []
-                    for (q, o), m in zip(bad, mo):
+                    for (q, o), m, txt in zip(bad, mo, bad_texts):
                         d = first_divergence(o, m, 2 if surface == "bytes" else 3)
-                        dis.append({"query": q[:1500], "implementation": o[:800], "model": (m or "")[:800], "first_divergent_step": d})
+                        # the history up to and including the first divergent step, in --replay-ops form
+                        upto = "; ".join(txt.split("; ")[: (d["step"] + 1) if d else None])
+                        dis.append({"query": q[:1500], "implementation": o[:800], "model": (m or "")[:800],
+                                    "first_divergent_step": d, "history": upto})
                     ctx.cov["disagreements"] = ctx.cov.get("disagreements", []) + dis
                     # a divergence from the model is a concrete input on which the implementation leaves the
                     # proved behaviour; report it with the history so that it can be replayed
